@@ -179,6 +179,14 @@ Theorem C11_generators_fail_only_on_empty_pool : forall ps g ot ds e, 0 <= g_min
 Proof. exact gen_expr_err. Qed.
 Print Assumptions C11_generators_fail_only_on_empty_pool.
 
+(* offers ps tys: tys is closed under the argument types of the primitives offered at its members, and the set
+   has a primitive and a terminal at each of them.  Then generation cannot fail at all. *)
+Theorem C11_generate_never_fails_when_offered : forall ps tys mode minh maxh t ds e,
+  offers ps tys -> In t tys -> 0 <= minh <= maxh ->
+  generate ps mode minh maxh t ds = Err e -> e = EDraw.
+Proof. exact generate_never_fails_when_offered. Qed.
+Print Assumptions C11_generate_never_fails_when_offered.
+
 Theorem C11_cx_one_point_safe : forall sub top1 top2 t1 t2 ds e,
   typed sub top1 t1 -> typed sub top2 t2 ->
   cx_one_point (flatten t1) (flatten t2) ds = Err e -> benign e.
